@@ -180,8 +180,16 @@ func c17Gen(rt *rapid.T) *hist.Case {
 	}
 	c.Cfg.Perm = perm
 	versions := []byte{pick(rt, "v0", []byte{4, 5, 5, 3}), pick(rt, "v1", []byte{4, 5, 5}), pick(rt, "v2", []byte{4, 5})}
+	// one history in three is about sessions that outlive their connections: every CONNECT resumes, subscriptions and
+	// publishes are QoS 1/2, so that messages are queued for offline sessions and handed over on reconnect (a route of
+	// its own: the permission has to hold for what is resent, too)
+	persist := rapid.IntRange(0, 2).Draw(rt, "persistent-sessions") == 0
+	minQ := 0
+	if persist {
+		minQ = 1
+	}
 	connect := func(cl int) hist.Action {
-		a := hist.Action{Kind: "connect", Client: cl, Version: versions[cl], Clean: rapid.IntRange(0, 2).Draw(rt, "clean") != 0, AutoAck: true}
+		a := hist.Action{Kind: "connect", Client: cl, Version: versions[cl], Clean: rapid.IntRange(0, 2).Draw(rt, "clean") != 0 && !persist, AutoAck: true}
 		if versions[cl] == 5 && !a.Clean {
 			e := uint32(100)
 			a.Expiry = &e
@@ -208,11 +216,11 @@ func c17Gen(rt *rapid.T) *hist.Case {
 		case 0, 1, 2:
 			a := hist.Action{Kind: "subscribe", Client: cl}
 			for i, n := 0, rapid.IntRange(1, 2).Draw(rt, "nf"); i < n; i++ {
-				a.Filters = append(a.Filters, refmqtt.Filter{Filter: pick(rt, "filter", c17Filters), QoS: byte(rapid.IntRange(0, 2).Draw(rt, "sq"))})
+				a.Filters = append(a.Filters, refmqtt.Filter{Filter: pick(rt, "filter", c17Filters), QoS: byte(rapid.IntRange(minQ, 2).Draw(rt, "sq"))})
 			}
 			return a
 		case 3, 4, 5, 6:
-			return hist.Action{Kind: "publish", Client: cl, Topic: pick(rt, "topic", append(append([]string{}, c17Topics...), "$SYS/x")), QoS: byte(rapid.IntRange(0, 2).Draw(rt, "pq")), Retain: rapid.Bool().Draw(rt, "retain")}
+			return hist.Action{Kind: "publish", Client: cl, Topic: pick(rt, "topic", append(append([]string{}, c17Topics...), "$SYS/x")), QoS: byte(rapid.IntRange(minQ, 2).Draw(rt, "pq")), Retain: rapid.Bool().Draw(rt, "retain")}
 		case 7:
 			return hist.Action{Kind: "drop", Client: cl}
 		case 8:
@@ -227,6 +235,13 @@ func c17Gen(rt *rapid.T) *hist.Case {
 	})
 	c.Actions = append(c.Actions, rapid.SliceOfN(action, 4, 30).Draw(rt, "actions")...)
 	// at the end everybody drops (wills fire), and a fresh subscriber with its own permissions looks at the retained store
+	if persist {
+		// a last round of traffic for whoever is offline, then everybody comes back and takes delivery
+		for i := 0; i < 3; i++ {
+			c.Actions = append(c.Actions, hist.Action{Kind: "publish", Client: 2, Topic: pick(rt, "ltopic", c17Topics), QoS: 1})
+		}
+		c.Actions = append(c.Actions, connect(0), connect(1))
+	}
 	c.Actions = append(c.Actions, hist.Action{Kind: "drop", Client: 0}, hist.Action{Kind: "drop", Client: 1},
 		hist.Action{Kind: "tick", Tick: "wills", Offset: 100000},
 		hist.Action{Kind: "connect", Client: 1, Version: versions[1], Clean: true, AutoAck: true},
@@ -237,7 +252,7 @@ func c17Gen(rt *rapid.T) *hist.Case {
 }
 
 func TestC17(t *testing.T) {
-	r := evid.New("C17", "rapid: a generated permission relation perm(client, exact topic-or-filter string, read/write) with a generated default (served by a test hook; optionally with ObscureNotAuthorized), 3 clients (v3.1/v3.1.1/v5), histories of subscribe (allowed and denied filters, wildcards covering denied topics), publish (allowed/denied/$SYS topics, QoS 0-2, retain), wills (immediate, and delayed ones released by the delayed-will housekeeping or by a clean-start reconnect) on allowed / write-denied / wildcard / $SYS topics followed by drops, reconnects, and a final subscriber that replays the retained store. Oracle, over EVERY PUBLISH any connection received by any route (live, retained replay, will, resend): receiver has read permission on its topic, the originating client has write permission on it, and the topic is a valid topic name outside $SYS; SUBACK for a denied filter is 0x87 (0x80 obscured / MQTT 3) and the refused subscription never delivers. Non-trivial = the history contains a denied route (denied subscribe, publish, receiver or will) and at least one delivery; distinct by (history, permission relation)")
+	r := evid.New("C17", "rapid: a generated permission relation perm(client, exact topic-or-filter string, read/write) with a generated default (served by a test hook; optionally with ObscureNotAuthorized), 3 clients (v3.1/v3.1.1/v5), histories of subscribe (allowed and denied filters, wildcards covering denied topics), publish (allowed/denied/$SYS topics, QoS 0-2, retain), persistent sessions that are sent QoS 1/2 messages while offline and take delivery on reconnect (one history in three), wills (immediate, and delayed ones released by the delayed-will housekeeping or by a clean-start reconnect) on allowed / write-denied / wildcard / $SYS topics followed by drops, reconnects, and a final subscriber that replays the retained store. Oracle, over EVERY PUBLISH any connection received by any route (live, retained replay, will, resend): receiver has read permission on its topic, the originating client has write permission on it, and the topic is a valid topic name outside $SYS; SUBACK for a denied filter is 0x87 (0x80 obscured / MQTT 3) and the refused subscription never delivers. Non-trivial = the history contains a denied route (denied subscribe, publish, receiver or will) and at least one delivery; distinct by (history, permission relation)")
 	defer r.Finish(t)
 	if evid.ReplayMode() {
 		evid.Replay(t, r, replayPath(), c17Check)
